@@ -218,6 +218,27 @@ def impl_outputs(cd, seq, ext_delta, bad_delta):
                 crashes.append(("extend_duration", e))
                 bad.append(True)
                 bad_raw.append(None)
+        # SequenceSamples.extend_duration: to the common duration (a duration some
+        # channel already has), twice; and to ext_ok.  Rendered BY NAME so that a
+        # dropped or mis-paired channel shows.
+        seq_ext_raw = {}
+        for key, target, twice in (("max2", maxdur, True), ("ok", ext_ok, False)):
+            try:
+                e = s.extend_duration(target)
+                if twice:
+                    e = e.extend_duration(target)
+                seq_ext_raw[key] = e
+            except Exception as e:  # noqa: BLE001
+                crashes.append(("SequenceSamples.extend_duration", e))
+                seq_ext_raw[key] = None
+        if seq_ext_raw["max2"] is None:
+            seq_ext = False
+        else:
+            by_name = seq_ext_raw["max2"].channel_samples
+            seq_ext = [
+                ([rle(by_name[n].amp), rle(by_name[n].det), rle(by_name[n].phase)] if n in by_name else [])
+                for n in names
+            ]
         nd = []
         nd_raw = []
         for al in (False, True):
@@ -241,9 +262,9 @@ def impl_outputs(cd, seq, ext_delta, bad_delta):
             else:
                 weights.append([])
                 wraw.append(None)
-    exp = [True, per_chan, mask, ext, bad, nd[0], nd[1], weights]
+    exp = [True, per_chan, mask, ext, bad, seq_ext, nd[0], nd[1], weights]
     raw = dict(s=s, names=names, css=css, maxdur=maxdur, ext_ok=ext_ok, ext_bad=ext_bad, ext_raw=ext_raw,
-               bad_raw=bad_raw, nd_raw=nd_raw, wraw=wraw)
+               bad_raw=bad_raw, nd_raw=nd_raw, wraw=wraw, seq_ext_raw=seq_ext_raw)
     return exp, raw, crashes
 
 
@@ -370,6 +391,12 @@ def oracle(case, cd, seq, raw, crashes, info):
             if np.any(det[idle] != off):
                 t = int(np.flatnonzero(idle & (det != off))[0])
                 bad("eom-idle-detuning", f"channel {name}: idle in EOM mode at t={t}: detuning {det[t]} != detuning_off {off}")
+        # every pulse is scheduled on the atoms the channel was last pointed at
+        for sl in cs.slots:
+            want_tg = info.get("pulse_targets", {}).get((name, sl.ti))
+            if isinstance(sl.type, Pulse) and want_tg is not None and set(sl.targets) != set(want_tg):
+                bad("targets:pulse-not-on-the-atoms-last-targeted",
+                    f"channel {name}: pulse at [{sl.ti},{sl.tf}) is attributed to {sorted(sl.targets)} but the channel was last pointed at {sorted(want_tg)}")
         # phases
         for sl in cs.slots:
             if not isinstance(sl.type, Pulse):
@@ -408,6 +435,32 @@ def oracle(case, cd, seq, raw, crashes, info):
             bad("extend:shorter-accepted", f"channel {name}: extend_duration({raw['ext_bad']}) accepted for duration {dur}")
         if raw["ext_bad"] >= dur and r is None:
             bad("extend:refused", f"channel {name}: extend_duration({raw['ext_bad']}) refused for duration {dur}")
+
+    # ---- SequenceSamples.extend_duration only pads, for every channel
+    for key, X in (("max2", raw["maxdur"]), ("ok", raw["ext_ok"])):
+        e = raw["seq_ext_raw"].get(key)
+        if e is None:
+            continue
+        if list(e.channels) != names or len(e.samples_list) != len(names):
+            bad("extend:sequence:channels",
+                f"SequenceSamples.extend_duration({X}): {len(e.samples_list)} samples for channels {list(e.channels)} (declared: {names})")
+            continue
+        for name, c0 in zip(names, raw["css"]):
+            cs = sched[name]
+            c1 = e.channel_samples[name]
+            dur = cs.slots[-1].tf if cs.slots else 0
+            a0, d0, p0 = arr(c0.amp), arr(c0.det), arr(c0.phase)
+            a1, d1, p1 = arr(c1.amp), arr(c1.det), arr(c1.phase)
+            in_eom = bool(cs.eom_blocks) and cs.eom_blocks[-1].tf is None
+            padd = float(cs.eom_blocks[-1].detuning_off) if in_eom else 0.0
+            padp = p0[-1] if len(p0) else 0.0
+            ok = (
+                len(a0) == dur and len(a1) == len(d1) == len(p1) == X
+                and same(a1[:dur], a0) and same(d1[:dur], d0) and same(p1[:dur], p0)
+                and np.all(a1[dur:] == 0.0) and np.all(d1[dur:] == padd) and np.all(p1[dur:] == padp)
+            )
+            if not ok:
+                bad("extend:sequence", f"SequenceSamples.extend_duration({X}): channel {name} is not its own samples followed by padding (zeros / {padd} / {padp})")
 
     # ---- per-atom, per-basis view
     N = raw["maxdur"]
@@ -476,9 +529,16 @@ def oracle(case, cd, seq, raw, crashes, info):
                     kind = "masked" if (bname == "XY" and q in mask_targets) else ("dmm" if any(isinstance(sched[n], _DMMSchedule) for n in chs) else "plain")
                     bad(f"nested:det:{kind}", f"all_local={al} basis {bname} atom {q}: detuning is not the (weighted) sum of the pulses targeting it; " + first_bad(gd[keep], ed[keep]))
                 # phase of the atom's view where a single channel drives the basis
-                if al and len(chs) == 1 and loc is not None:
+                if len(chs) == 1 and (loc is not None or glo is not None):
                     cs = sched[chs[0]]
-                    lp = arr(loc["phase"])
+                    lp = np.zeros(N)
+                    if loc is not None:
+                        lp = lp + arr(loc["phase"])
+                    if glo is not None:
+                        if bname == "XY" and q in mask_targets:
+                            lp[mask_end:] += arr(glo["phase"])[mask_end:]
+                        else:
+                            lp = lp + arr(glo["phase"])
                     for sl in cs.slots:
                         if not isinstance(sl.type, Pulse) or q not in sl.targets or is_dd_shape(sl.type):
                             continue
@@ -486,7 +546,7 @@ def oracle(case, cd, seq, raw, crashes, info):
                         if bname == "XY" and q in mask_targets:
                             lo = max(lo, mask_end)
                         if lo < sl.tf and not np.all(lp[lo:sl.tf] == float(sl.type.phase)):
-                            bad("nested:phase", f"all_local=True basis {bname} atom {q}: phase over the pulse at [{sl.ti},{sl.tf}) is not {float(sl.type.phase)}")
+                            bad("nested:phase", f"all_local={al} basis {bname} atom {q}: phase over the pulse at [{sl.ti},{sl.tf}) is not {float(sl.type.phase)}")
                             break
             # atoms that are never targeted on this basis have no non-zero entry
     return v
